@@ -575,3 +575,23 @@ Proof.
     unfold op_crn, op_one, op_linkage, op_summary; repeat (rewrite E; cbn [fst snd s_sum s_ld s_one s_nd]);
     unfold route, route_with, do_one_with, do_linkage, do_summary, fresh_sum, to_old, stored_one, stored_ld, snap_of; cbn; reflexivity.
 Qed.
+
+(* ------------------------------------------------------------------ the one-shot route with the nondegeneracy test *)
+
+(** compute_crn_deficiency(run_nondegeneracy=True) that returns normally leaves, from ANY state, all four groups of the CURRENT
+    network: its summary group, its class deficiencies, the deficiency-one record built from them, and a nondegeneracy record
+    with the nullity (species - rank) and the largest complex size of this network *)
+Theorem api_crn_nondeg_current o x mis st st' : op_crn o x true mis st = (st', ROk) ->
+  let sn := snap_of o x in
+  s_sum st' = Some sn /\ s_ld st' = Some (stored_ld sn) /\ s_one st' = Some (stored_one sn (stored_ld sn)) /\
+  exists d, s_nd st' = Some d /\
+            nd_nullity d = length (species_order (hs_net x) (hs_iso x)) - rc_r (hs_rc x) /\
+            nd_max d = max_complex_size (fst (complex_graph (hs_net x) (hs_iso x))).
+Proof.
+  unfold op_crn, op_summary. destruct (hs_net x) as [|e net] eqn:E; [discriminate|]. cbn [fst snd].
+  unfold op_linkage, op_one. cbn [s_sum s_ld s_one s_nd fst snd]. unfold op_nondeg.
+  destruct (negb (o_stoich o)); [discriminate|]. cbn [s_sum s_ld s_one s_nd]. rewrite E.
+  destruct (nondeg _ _ _ mis) as [d|] eqn:D; [|discriminate]. intros H. inversion H; subst st'. clear H. cbn [s_sum s_ld s_one s_nd].
+  repeat (split; [reflexivity|]). exists d. split; [reflexivity|].
+  destruct (nondeg_max _ _ _ _ _ D) as (A & B & _). split; [exact B|]. rewrite A. unfold snap_of. cbn [sn_cs]. rewrite E. reflexivity.
+Qed.
